@@ -12,6 +12,10 @@ pub mod roles;
 /// Constants.
 pub mod constants;
 
+/// Verification hooks.
+#[cfg(gmsol_verif)]
+pub mod verif;
+
 use anchor_lang::prelude::*;
 use gmsol_store::utils::CpiAuthenticate;
 use instructions::*;
